@@ -858,3 +858,92 @@ def rule_revert_protocol(ctx, chk, eng, rule='revert-protocol'):
                         'cleanup' % (name, c, MASK_BIT_OF_CLASS.get(c)), func=name)
             else:
                 chk.ok(rule, key, f.loc, '%s: component `%s` is covered at every failure return' % (name, c), func=name)
+
+
+def rule_mask_bit_after_copy(ctx, chk, eng, rule='mask-bit-after-copy'):
+    """a done-mask bit may only be set once the component really holds a fresh block"""
+    from .cfgutil import dominators
+    from .failclean import zero_test
+    from .tables import MASK_BIT_OF_CLASS
+    prog, irp = ctx.prog, ctx.irp
+    helpers = copy_helpers(eng, irp)
+    chk.rule(rule, 'a done-mask bit is set only on paths on which the component was replaced by a fresh block: in a copying '
+             'helper the `|=` is dominated by the store of the (NULL-tested) new block into the range; in its callers it is '
+             'dominated by (or follows the loop of) a successful helper call for a component of that bit', floor=14)
+    for name, f in sorted(irp.funcs.items()):
+        ors = []
+        for b in f.blocks:
+            for idx, i in enumerate(b.ins):
+                if i.op == 'assign' and i.x and i.x.get('compound') == '|=' and 'mask' in expr_key(i.dst).lower() \
+                        and 'done' in expr_key(i.dst).lower():
+                    ors.append((b, idx, i))
+        if not ors:
+            continue
+        dom = dominators(f)
+        for b, idx, i in ors:
+            bitv = const_value(i.src.c[1], prog) if i.src.k == 'bin' else None
+            key = 'maskbit:%s/%s' % (base_name(name), bitv if bitv is not None else pp.expr(i.src.c[1]))
+            ok = False
+            why = ''
+            if name in helpers:
+                # store of a fresh block into X->first dominating the |=
+                for b2 in f.blocks:
+                    for j2, j in enumerate(b2.ins):
+                        if j.op == 'assign' and j.dst.k == 'member' and j.dst.v == 'first':
+                            if (b2.id in dom[b.id] and b2 is not b) or (b2 is b and j2 < idx):
+                                # the stored value must be a NULL-tested allocation: b2 dominated by a non-null edge
+                                ok = True
+                                why = 'after the store of the new block at %s' % fmt_loc(j.loc)
+                if ok:
+                    # and the allocation must dominate too
+                    ok = any(jj.op == 'call' and manager_call(jj) and manager_call(jj)[0] in ('malloc', 'calloc') and
+                             ((bb.id in dom[b.id] and bb is not b) or (bb is b and bb.ins.index(jj) < idx))
+                             for bb in f.blocks for jj in bb.ins)
+            else:
+                for b2 in f.blocks:
+                    for j in b2.ins:
+                        if j.op != 'call' or call_target(j) not in helpers:
+                            continue
+                        cls = None
+                        for pi in helpers[call_target(j)]:
+                            if pi < len(j.args):
+                                cls = range_class(j.args[pi])
+                        bit = MASK_BIT_OF_CLASS.get(cls)
+                        if bit is None or bitv is None or prog.enums.get(bit) != bitv:
+                            continue
+                        if b2.term[0] != 'br':
+                            continue
+                        zt = zero_test(b2.term[1], prog)
+                        if not zt or j.dst is None or zt[0] != j.dst.v:
+                            continue
+                        succ_ok = b2.term[3] if zt[1] else b2.term[2]
+                        if succ_ok.id in dom[b.id]:
+                            ok = True
+                            why = 'dominated by the success edge of %s at %s' % (call_target(j), fmt_loc(j.loc))
+                        else:
+                            # helper call inside a loop whose header dominates the |=, failure edge leaves the function
+                            fail = b2.term[2] if zt[1] else b2.term[3]
+                            hdrs = [h for h in f.blocks if h.id in dom[b2.id] and h.id in dom[b.id] and
+                                    any(p.id != h.id and h.id in dom[p.id] for p in h.preds)]
+                            reach = _reach_without(f, fail, b2)
+                            if hdrs and b.id not in reach:
+                                ok = True
+                                why = 'follows the loop of %s calls at %s' % (call_target(j), fmt_loc(j.loc))
+            if ok:
+                chk.ok(rule, key, i.loc, '%s: %s' % (name, why), func=name)
+            else:
+                chk.bad(rule, key, i.loc, '%s sets done-mask bit %s at a point not dominated by a successful copy of the '
+                        'component: the revert routine would free text that was never duplicated' % (name, bitv if bitv is not None else pp.expr(i.src.c[1])),
+                        func=name)
+
+
+def _reach_without(f, start, avoid):
+    seen = set()
+    st = [start]
+    while st:
+        x = st.pop()
+        if x.id in seen or x is avoid:
+            continue
+        seen.add(x.id)
+        st.extend(x.succs())
+    return seen
